@@ -149,6 +149,9 @@ class C15(Engine):
 			cases.append({'pool': pool, 'ops': [run, run], 'kind': 'canonical'})
 			cases.append({'pool': pool, 'ops': [run, {'op': 'edit', 'm': leaf, 'v': 1, 'dt': 10**9}, run, run], 'kind': 'canonical'})
 			cases.append({'pool': pool, 'ops': [run, {'op': 'touch', 'm': leaf, 'dt': 10**9}, run, {'op': 'lose', 'pick': 0.3, 'cls': 'symbols'}, run], 'kind': 'canonical'})
+		ex = pools.example_pool()
+		run = {'op': 'run'}
+		cases.append({'pool': ex, 'ops': [run, run, {'op': 'touch', 'm': 'example.json', 'dt': 10**9}, run, {'op': 'edit', 'm': 'example.FW.string', 'v': 1, 'dt': 10**9}, run, run], 'kind': 'canonical'})
 		return cases
 
 	def generate(self, rng: random.Random, index: int) -> dict[str, Any]:
